@@ -153,6 +153,7 @@ func main() {
 		sort.Strings(res.ModelEcos)
 		defer pool.Close()
 	}
+	startWatchdog(res, *out)
 	f(ctx)
 	res.Findings = findingStatuses(*prop)
 	res.WallS = time.Since(t0).Seconds()
